@@ -235,7 +235,7 @@ func Snapshot(m modeling.Mesh) string {
 		if mm.Material == nil {
 			fmt.Fprintf(&sb, "(%d,nil)", mm.PrimitiveCount)
 		} else {
-			fmt.Fprintf(&sb, "(%d,%p,%s)", mm.PrimitiveCount, mm.Material, mm.Material.Name)
+			fmt.Fprintf(&sb, "(%d,%p,%+v)", mm.PrimitiveCount, mm.Material, *mm.Material) // the pointed-to material too
 		}
 	}
 	fmt.Fprintf(&sb, ";names=%v|%v|%v|%v;", m.Float1Attributes(), m.Float2Attributes(), m.Float3Attributes(), m.Float4Attributes())
